@@ -33,6 +33,7 @@ type FuncResult struct {
 	Err      error // outside the subset / spec error
 	Results  []*OblResult
 	Notes    []string
+	Lemmas   []string
 	Used     []string
 	Inlined  []string
 	Enc      *Enc
@@ -117,6 +118,9 @@ func (P *Program) verifyFunc(key string, opts *VerifyOpts) (res *FuncResult) {
 		for n := range e.inlined {
 			inl[n] = true
 		}
+		for n := range e.usedLemmas {
+			res.Lemmas = append(res.Lemmas, n)
+		}
 	}
 	for n := range notes {
 		res.Notes = append(res.Notes, n)
@@ -153,6 +157,9 @@ func (P *Program) verifyFunc(key string, opts *VerifyOpts) (res *FuncResult) {
 						return
 					}
 					ctx := &SpecCtx{e: e, names: e.topNames, heap: e.h0, old: e.h0, pkg: spec.Pkg}
+					if f.At == "site" && o.Site != nil {
+						ctx = o.Site
+					}
 					o.Except = ctx.evalBool(n)
 					o.Finding = f
 				}()
@@ -703,4 +710,79 @@ func containsStr(xs []string, x string) bool {
 		}
 	}
 	return false
+}
+
+// verifyLemma proves a lemma once per run: directly, or by induction on a natural-number parameter
+// (base case k <= 0, step case k > 0 with the statement at k-1 as hypothesis). The induction principle
+// itself is the trusted meta-step.
+func (P *Program) verifyLemma(idx int, opts *VerifyOpts) *FuncResult {
+	ld := P.Lemmas[idx]
+	key := "lemma:" + ld.Pkg + "." + ld.Name
+	res := &FuncResult{Key: key}
+	t0 := time.Now()
+	defer func() { res.Millis = time.Since(t0).Milliseconds() }()
+	e := newEnc(P)
+	e.lemmaLimit = idx
+	res.Enc = e
+	func() {
+		defer func() {
+			if r := recover(); r != nil {
+				switch x := r.(type) {
+				case Unsupported:
+					res.Err = fmt.Errorf("outside the verified Go subset: %s", x.Msg)
+				case SpecError:
+					res.Err = fmt.Errorf("contract error in %s: %s", key, x.Msg)
+				default:
+					panic(r)
+				}
+			}
+		}()
+		h := &Heap{m: map[string]string{}, alloc: q("alloc@0"), dirty: map[string]int{}}
+		old := &Heap{m: map[string]string{}, alloc: q("alloc@0"), dirty: map[string]int{}, formal: &formalHeap{prefix: "old!", declare: true, used: map[string]string{}}}
+		names := map[string]Val{}
+		for _, p := range ld.Params {
+			t := P.parseType(ld.Pkg, p.Type)
+			names[p.Name] = e.freshVal("arg."+p.Name, t)
+		}
+		e.topNames = names
+		e.h0 = h
+		e.caseKey = key
+		mk := func(nm map[string]Val) string {
+			ctx := &SpecCtx{e: e, names: nm, heap: h, old: old, pkg: ld.Pkg}
+			return ctx.evalBool(ld.Body)
+		}
+		if ld.Induct == "" {
+			e.oblige(key+"#direct", "lemma", "true", mk(names), fmt.Sprintf("zz_contracts_verif.go:%d", ld.Line), "lemma "+ld.Name+": "+ld.Src, ld.Props)
+			return
+		}
+		kv, ok := names[ld.Induct]
+		if !ok {
+			panic(specErr("lemma %s: no parameter %s", ld.Name, ld.Induct))
+		}
+		goal := mk(names)
+		e.oblige(key+"#base", "lemma", sx("<=", kv.S, "0"), goal, fmt.Sprintf("zz_contracts_verif.go:%d", ld.Line), "lemma "+ld.Name+" (base case "+ld.Induct+" <= 0): "+ld.Src, ld.Props)
+		prev := map[string]Val{}
+		for k, v := range names {
+			prev[k] = v
+		}
+		prev[ld.Induct] = scalar(kv.T, sx("-", kv.S, "1"))
+		ih := mk(prev)
+		e.assume(sx(">", kv.S, "0"), ih)
+		e.oblige(key+"#step", "lemma", sx(">", kv.S, "0"), goal, fmt.Sprintf("zz_contracts_verif.go:%d", ld.Line), "lemma "+ld.Name+" (induction step): "+ld.Src, ld.Props)
+	}()
+	if res.Err != nil {
+		return res
+	}
+	res.Results = make([]*OblResult, len(e.obls))
+	var wg sync.WaitGroup
+	for i, o := range e.obls {
+		wg.Add(1)
+		go func(i int, o *Obl) {
+			defer wg.Done()
+			res.Results[i] = e.discharge(o, key, opts)
+		}(i, o)
+	}
+	wg.Wait()
+	res.Notes = append(res.Notes, "induction over naturals is the trusted meta-step for lemma "+ld.Name)
+	return res
 }
